@@ -61,6 +61,8 @@ pub fn c08(a: &Args) {
             let len = 1 + r2.below(3.min(n as usize));
             asets.push((0..len).map(|_| *r2.pick(&m)).collect());
         }
+        // the same set of assumptions written as a list of more than 20 literals (repeats), which takes the other counting strategy
+        if let Some(short) = asets.get(1).cloned() { let k = 21 + r2.below(4); asets.push((0..k).map(|i| short[i % short.len()]).collect()); }
         for al in asets {
             // candidate subsets: all for n <= 4, random beyond
             let mut csets: Vec<Option<Vec<u32>>> = vec![None];
